@@ -40,14 +40,24 @@ func (ls *LogScrubber) Unlock() { (*ls).lock.Unlock() }
 
 func Scrub(b []byte) []byte {
 	scrubbedBytes := b
-	for _, pattern := range scrubberPatterns {
-		// this is a workaround since go does not yet support look ahead or look
-		// behind for regular expressions.
-		scrubbedBytes = pattern.ReplaceAllFunc(scrubbedBytes, func(b []byte) []byte {
-			return addressRegexp.ReplaceAll(b, []byte("[scrubbed]"))
-		})
+	// A match consumes the delimiter that follows the address, and the next
+	// address needs that same delimiter in front of it: of two addresses
+	// separated by a single space, newline or comma, one pass only scrubs
+	// the first. Repeat until a pass changes nothing. This terminates: every
+	// replacement removes at least one '.' or ':' and adds none.
+	for {
+		before := scrubbedBytes
+		for _, pattern := range scrubberPatterns {
+			// this is a workaround since go does not yet support look ahead or look
+			// behind for regular expressions.
+			scrubbedBytes = pattern.ReplaceAllFunc(scrubbedBytes, func(b []byte) []byte {
+				return addressRegexp.ReplaceAll(b, []byte("[scrubbed]"))
+			})
+		}
+		if bytes.Equal(before, scrubbedBytes) {
+			return scrubbedBytes
+		}
 	}
-	return scrubbedBytes
 }
 
 func (ls *LogScrubber) Write(b []byte) (n int, err error) {
